@@ -177,6 +177,7 @@ def C07(ctx):
     queues.nikolaev(ctx)
     queues.vyukov_bounded(ctx)
     queues.kfifo(ctx)
+    queues.destructor_walks(ctx)
     harris.use_after_move(ctx, FILES["C07"])
     return ("Decides element ownership rules: move-out then destroy exactly once in every pop path, release of unique_ptr ownership only after the "
             "raw pointer was stored, destructor ranges bounded by the container's own counters, rollback paths, no use of moved-from values.",
